@@ -95,6 +95,8 @@ def run(ctx):
         ('G-sim-saturate-priority', 50, 1000, dict(saturate='priority')),
         ('G-sim-saturate-overbook', 40, 800, dict(saturate='overbook')),
         ('G-sim-saturate-naive', 30, 600, dict(saturate='naive')),
+        ('G-sim-branches-priority', 30, 600, dict(branches='priority')),
+        ('G-sim-branches-naive', 20, 400, dict(branches='naive')),
     ], known=known)
     st = collections.Counter(out['dist'])
     # contended priority runs with preemption (suspensions are commands the executor may refuse)
